@@ -456,7 +456,7 @@ pub fn run(args: &Args) -> ! {
         check_model(h, m, false)
     });
     ctx.run_enum("lone", &lone_cases(), true, check_lone);
-    ctx.run_prop("scenes", ctx.tier().pick(1_500, 60_000), scene, check_scene);
+    ctx.run_prop("scenes", ctx.tier().pick(8_000, 100_000), scene, check_scene);
     for c in ["scenes/occluders/<=30", "scenes/occluders/>30", "scenes/setback", "scenes/no-position", "scenes/partially-shaded-window", "scenes/added/wall", "scenes/added/shade", "scenes/added-obstacle-shades-something"] {
         ctx.require_class(c);
     }
